@@ -252,7 +252,13 @@ def _gen_facts(cigar_tree):
             "def readerDefaults : List (String × String) := " + _lpairs(_defaults(r))]
     guards = _if_raising(w)
     kinds = []
+    expanded = []
     for t, nm in guards:
+        if isinstance(t, ast.BoolOp) and isinstance(t.op, ast.Or) and all(isinstance(x, ast.Compare) for x in t.values):
+            expanded += [(x, nm) for x in t.values]
+        else:
+            expanded.append((t, nm))
+    for t, nm in expanded:
         if isinstance(t, ast.Compare):
             c = _cmp(t)
             kinds.append((c[1], c[2] if c[2] in ("0",) else "var", nm))
@@ -269,7 +275,7 @@ def _gen_facts(cigar_tree):
                 raise ValueError("unexpected guard in write_alignment_to_cigar: " + txt)
     out += ["/-- the refusing guards of `write_alignment_to_cigar` in source order: (kind/operator, constant, exception) -/",
             "def writerGuards : List (String × String × String) := " + _lpairs(kinds),
-            "def readerRaises : List String := [" + ", ".join(_lstr(x) for x in _raises(r)) + "]"]
+            "def readerRaises : List String := [" + ", ".join(_lstr(x) for x in sorted(set(_raises(r)))) + "]"]
     # private helpers are found by how the writer calls them, not by name
     trim_name = clip_name = print_name = None
     for n in ast.walk(w):
@@ -279,6 +285,15 @@ def _gen_facts(cigar_tree):
             clip_name = _callee(n.value)
         if isinstance(n, ast.If) and ast.unparse(n.test) == "as_string":
             print_name = next((_callee(x.value) for x in n.body if isinstance(x, (ast.Assign, ast.Return)) and _callee(x.value)), None)
+    priv = [n for n in cigar_tree.body if isinstance(n, ast.FunctionDef) and n.name.startswith("_")]
+    if print_name is None:      # the helper that turns op tuples into text: it calls `to_cigar_symbol`
+        print_name = next((f.name for f in priv if "to_cigar_symbol" in ast.unparse(f)), None)
+    if clip_name is None:
+        clip_name = next((f.name for f in priv if any(isinstance(x, ast.Return) and isinstance(x.value, ast.Tuple) and len(x.value.elts) == 2
+                                                      for x in ast.walk(f)) and "len(" in ast.unparse(f)), None)
+    if trim_name is None:
+        trim_name = next((f.name for f in priv if any(isinstance(x, ast.Return) and isinstance(x.value, ast.Subscript) and isinstance(x.value.slice, ast.Slice)
+                                                      for x in ast.walk(f))), None)
     fc, ft, fp = _module_fn(cigar_tree, clip_name), _module_fn(cigar_tree, trim_name), _module_fn(cigar_tree, print_name)
     ret = next((n for n in ast.walk(fc) if isinstance(n, ast.Return)), None)
     if ret is None or not (isinstance(ret.value, ast.Tuple) and len(ret.value.elts) == 2 and all(isinstance(e, ast.Name) for e in ret.value.elts)):
@@ -301,11 +316,12 @@ def _gen_facts(cigar_tree):
             f"def trimLower : Int := {int(ast.literal_eval(sl.lower.slice))}",
             f"def trimUpper : Int := {int(ast.literal_eval(sl.upper.left.slice))}",
             f"def trimPlus : Int := {int(sl.upper.right.value)}"]
-    aug = next((n for n in ast.walk(fp) if isinstance(n, ast.AugAssign)), None)
-    if aug is None or not isinstance(aug.value, ast.BinOp):
+    cat = next((n for n in ast.walk(fp) if isinstance(n, ast.BinOp) and isinstance(n.op, ast.Add)
+                and ("to_cigar_symbol" in ast.unparse(n.left)) != ("to_cigar_symbol" in ast.unparse(n.right))), None)
+    if cat is None:
         raise ValueError("printer helper: unexpected shape")
     out += ["/-- the printer appends `str(count)` first, then the symbol -/",
-            f"def printerCountFirst : Bool := {'true' if ast.unparse(aug.value.left).startswith('str(') else 'false'}"]
+            f"def printerCountFirst : Bool := {'true' if ast.unparse(cat.left).startswith('str(') and 'to_cigar_symbol' in ast.unparse(cat.right) else 'false'}"]
     out += ["def readerInit : List (String × String) := " + _lpairs(_reader_table.init)]
 
     # ---------------- alignment.py
@@ -363,7 +379,7 @@ def _gen_facts(cigar_tree):
             if isinstance(t, ast.Compare):
                 gg.append(f"{_rename(t.left, mp)} {_CMP[type(t.ops[0])]} {_rename(t.comparators[0], mp)} {nm}")
         facts.append((name + ".guards", ";".join(gg)))
-        facts.append((name + ".raises", ",".join(_raises(f))))
+        facts.append((name + ".raises", ",".join(sorted(set(_raises(f))))))
     gi = _fn(atree, "get_sequence_identity")
     mt = next((n.test for n in ast.walk(gi) if isinstance(n, ast.If) and "np.unique" in ast.unparse(gi) and isinstance(n.test, ast.BoolOp)
                and "len(" in ast.unparse(n.test)), None)
@@ -409,7 +425,7 @@ def _gen_facts(cigar_tree):
         raise ValueError("score: pair loop not recognised")
     facts.append(("score.lookup", "matrix[" + ",".join("earlier" if x == order[0] else "later" for x in idx) + "]"))
     facts.append(("score.pairs", "every unordered pair once (earlier < later)"))
-    facts.append(("score.raises", ",".join(_raises(sf))))
+    facts.append(("score.raises", ",".join(sorted(set(_raises(sf))))))
     gmap = {}
     for k, v in sasg.items():
         if ast.unparse(v) == "gap_penalty[0]":
@@ -420,6 +436,30 @@ def _gen_facts(cigar_tree):
               and n.value.id in gmap]
     facts.append(("score.gapOrder", ",".join(gapadd)))
     ftg = _fn(atree, "find_terminal_gaps")
+    try:
+        facts += _terminal_gap_facts(ftg)
+    except ValueError as e:
+        facts.append(("find_terminal_gaps.start", "UNRECOGNISED: " + str(e)))
+        facts.append(("find_terminal_gaps.stop", "UNRECOGNISED: " + str(e)))
+    rt = _fn(atree, "remove_terminal_gaps")
+    mp = {}
+    for n in ast.walk(rt):
+        if isinstance(n, ast.Assign) and isinstance(n.targets[0], ast.Tuple) and len(n.targets[0].elts) == 2:
+            mp = {n.targets[0].elts[0].id: "start", n.targets[0].elts[1].id: "stop"}
+    facts.append(("remove_terminal_gaps.guard", ";".join(f"{_rename(t.left, mp)} {_CMP[type(t.ops[0])]} {_rename(t.comparators[0], mp)} {nm}"
+                                                         for t, nm in _if_raising(rt) if isinstance(t, ast.Compare))))
+    facts += _tail_alignment_facts(atree)
+    facts += _fasta_facts(paths)
+    facts += _pyx_facts(paths)
+    out += ["/-- literals, guards, defaults, step order and exception classes read from alignment.py, fasta/convert.py (ast) and",
+            "multiple.pyx (text) -/",
+            "def facts : List (String × String) := " + _lpairs(facts)]
+    return out
+
+
+def _terminal_gap_facts(ftg):
+    import re
+    facts = []
     comps = []
     for n in ast.walk(ftg):
         if isinstance(n, ast.Assign) and isinstance(n.value, ast.ListComp) and isinstance(n.value.elt, ast.IfExp) and isinstance(n.targets[0], ast.Name):
@@ -443,13 +483,12 @@ def _gen_facts(cigar_tree):
         res.append(f"{m.group(1)}({by[m.group(2)]})+{plus}")
     facts.append(("find_terminal_gaps.start", res[0]))
     facts.append(("find_terminal_gaps.stop", res[1]))
-    rt = _fn(atree, "remove_terminal_gaps")
-    mp = {}
-    for n in ast.walk(rt):
-        if isinstance(n, ast.Assign) and isinstance(n.targets[0], ast.Tuple) and len(n.targets[0].elts) == 2:
-            mp = {n.targets[0].elts[0].id: "start", n.targets[0].elts[1].id: "stop"}
-    facts.append(("remove_terminal_gaps.guard", ";".join(f"{_rename(t.left, mp)} {_CMP[type(t.ops[0])]} {_rename(t.comparators[0], mp)} {nm}"
-                                                         for t, nm in _if_raising(rt) if isinstance(t, ast.Compare))))
+    return facts
+
+
+def _tail_alignment_facts(atree):
+    import re
+    facts = []
     rg = _fn(atree, "remove_gaps")
     mtxt = ast.unparse(next(n.value for n in ast.walk(rg) if isinstance(n, ast.Assign)))
     if re.fullmatch(r"\(alignment\.trace != -1\)\.all\(axis=1\)", mtxt) or re.fullmatch(r"~\(alignment\.trace == -1\)\.any\(axis=1\)", mtxt):
@@ -460,7 +499,11 @@ def _gen_facts(cigar_tree):
     n_int = sum(1 for n in ast.walk(gi2) if isinstance(n, ast.Call) and ast.unparse(n.func) == "isinstance" and "numbers.Integral" in ast.unparse(n.args[1]))
     n_plain = sum(1 for n in ast.walk(gi2) if isinstance(n, ast.Call) and ast.unparse(n.func) == "isinstance" and ast.unparse(n.args[1]) in ("int", "(int,)"))
     facts.append(("getitem.integerTest", "numbers.Integral in the 1-D and the 2-D branch" if n_int >= 2 and n_plain == 0 else f"{n_int} Integral / {n_plain} int"))
-    # ---------------- fasta/convert.py
+    return facts
+
+
+def _fasta_facts(paths):
+    facts = []
     ctree = ast.parse(open(os.path.join(paths.SRC, "biotite/sequence/io/fasta/convert.py")).read())
     ga, sa = _fn(ctree, "get_alignment"), _fn(ctree, "set_alignment")
     facts.append(("get_alignment.defaults", ";".join(f"{a}={d}" for a, d in _defaults(ga))))
@@ -469,16 +512,28 @@ def _gen_facts(cigar_tree):
         if isinstance(n, ast.Call) and isinstance(n.func, ast.Attribute) and n.func.attr == "replace" and len(n.args) == 2:
             reps.append(",".join(ast.unparse(x) if isinstance(x, ast.Constant) else "char" for x in n.args))
     facts.append(("get_alignment.replace", ";".join(sorted(set(reps)))))
+    # every listed character must be replaced in the *current* text of every string: either the characters are the outer loop
+    # (each pass re-reads the list), or the replacement reads the very element it assigns (`x[i] = x[i].replace(...)`)
     outer = next((n for n in ga.body if isinstance(n, ast.For)), None)
-    inner = next((n for n in ast.walk(outer) if isinstance(n, ast.For) and n is not outer), None) if outer is not None else None
-    facts.append(("get_alignment.loops", "outer=" + (ast.unparse(outer.iter) if outer is not None and ast.unparse(outer.iter) == "additional_gap_chars" else "strings")
-                  + ";inner=" + ("additional_gap_chars" if inner is not None and ast.unparse(inner.iter) == "additional_gap_chars" else "strings")))
+    chars_outer = outer is not None and ast.unparse(outer.iter) == "additional_gap_chars"
+    fresh = False
+    for n in ast.walk(ga):
+        if isinstance(n, ast.Assign) and isinstance(n.value, ast.Call) and isinstance(n.value.func, ast.Attribute) and n.value.func.attr == "replace" \
+                and len(n.value.args) == 2 and not isinstance(n.value.args[0], ast.Constant):
+            fresh = ast.unparse(n.value.func.value) == ast.unparse(n.targets[0])
+    facts.append(("get_alignment.loops", "every additional gap character is replaced in the current text" if (chars_outer or fresh)
+                  else "replacement reads a stale string"))
     sg = _if_raising(sa)
     if len(sg) != 1 or not isinstance(sg[0][0], ast.Compare):
         raise ValueError("set_alignment: expected one refusing guard")
     sides = sorted(["len(seq_names)" if "seq_names" in ast.unparse(x) else "len(rows)" for x in (sg[0][0].left, sg[0][0].comparators[0])])
     facts.append(("set_alignment.guard", f"{sides[0]} {_CMP[type(sg[0][0].ops[0])]} {sides[1]} {sg[0][1]}"))
-    # ---------------- multiple.pyx (text; the .pyx <-> .c <-> .so tie guarantees the binary matches it)
+    return facts
+
+
+def _pyx_facts(paths):
+    import re
+    facts = []
     px = open(os.path.join(paths.SRC, "biotite/sequence/align/multiple.pyx")).read()
 
     def func_text(name):
@@ -516,10 +571,7 @@ def _gen_facts(cigar_tree):
     facts.append(("distance.formula", re.sub(r"\s+", "", need(r"distances_v\[i,j\]\s*=\s*(-log\(.*?\)\s*\))", dm, "distance formula").group(1))))
     facts.append(("distance.randDivisor", re.sub(r"\s+", "", need(r"score_rand\s*/=\s*(alignments\[i,j\]\.trace\.shape\[0\])", dm, "score_rand divisor").group(1))))
     facts.append(("distance.gapTerms", ";".join(re.sub(r"\s+", "", x) for x in re.findall(r"score_rand\s*\+=\s*(gap_\w+_count\s*\*\s*gap_\w+)", dm))))
-    out += ["/-- literals, guards, defaults, step order and exception classes read from alignment.py, fasta/convert.py (ast) and",
-            "multiple.pyx (text) -/",
-            "def facts : List (String × String) := " + _lpairs(facts)]
-    return out
+    return facts
 
 
 def _reader_table(fn):
@@ -559,8 +611,22 @@ def _reader_table(fn):
             names = [test.comparators[0].attr]
         else:
             raise ValueError("unexpected reader test " + ast.unparse(test))
-        ref_adv = seg_adv = clipped = ref_gap = seg_gap = False
-        for st in chain.body:
+        flags = {nm: dict(ref_adv=False, seg_adv=False, clipped=False, ref_gap=False, seg_gap=False) for nm in names}
+
+        def branch_names(t):
+            if isinstance(t, ast.Compare) and isinstance(t.ops[0], ast.In):
+                return [e.attr for e in t.comparators[0].elts]
+            if isinstance(t, ast.Compare) and isinstance(t.ops[0], ast.Eq):
+                return [t.comparators[0].attr]
+            raise ValueError("unexpected reader test " + ast.unparse(t))
+        todo = [(st, names) for st in chain.body]
+        while todo:
+            st, who = todo.pop(0)
+            if isinstance(st, ast.If) and not st.orelse:
+                sub = [n for n in branch_names(st.test) if n in who]
+                todo = [(x, sub) for x in st.body] + todo
+                continue
+            ref_adv = seg_adv = clipped = ref_gap = seg_gap = False
             ok = False
             if isinstance(st, ast.AugAssign) and isinstance(st.op, ast.Add) and isinstance(st.target, ast.Name) and ast.unparse(st.value) == length:
                 if st.target.id == ref_cur:
@@ -584,8 +650,12 @@ def _reader_table(fn):
                             seg_gap = True
             if not ok:
                 raise ValueError("unexpected statement in reader branch: " + ast.unparse(st))
+            for nm in who:
+                f = flags[nm]
+                f["ref_adv"] |= ref_adv; f["seg_adv"] |= seg_adv; f["clipped"] |= clipped; f["ref_gap"] |= ref_gap; f["seg_gap"] |= seg_gap
         for n in names:
-            rows.append((n, ref_adv, seg_adv, clipped, ref_gap, seg_gap))
+            f = flags[n]
+            rows.append((n, f["ref_adv"], f["seg_adv"], f["clipped"], f["ref_gap"], f["seg_gap"]))
         nxt = chain.orelse
         if len(nxt) == 1 and isinstance(nxt[0], ast.If):
             chain = nxt[0]
